@@ -278,6 +278,12 @@ func (tr *Transaction) Discard() {
 	tr.lk.Lock()
 	if !tr.closed {
 		tr.discard()
+		// Never hand out the discarded sequence numbers again: iterators
+		// created from this transaction may outlive it and must not see
+		// later writes.
+		if tr.seq > tr.db.seq {
+			tr.db.setSeq(tr.seq)
+		}
 		tr.setDone()
 	}
 	tr.lk.Unlock()
